@@ -37,7 +37,7 @@ fn now_recorded() -> u64 {
 }
 
 /// Generate a tree in EtherCAT processing order (pre-order, children on ports 3, 1, 2).
-fn gen_tree(t: &mut Tape, n: usize, max_children: usize) -> Vec<Option<(usize, u8)>> {
+pub fn gen_tree(t: &mut Tape, n: usize, max_children: usize) -> Vec<Option<(usize, u8)>> {
     let mut parent: Vec<Option<(usize, u8)>> = vec![None];
     fn build(t: &mut Tape, parent: &mut Vec<Option<(usize, u8)>>, node: usize, n: usize, max_children: usize, depth: usize) {
         if parent.len() >= n {
